@@ -62,7 +62,8 @@ class C03(Check):
                    'decision point, VMDK text territory) asserts nothing']
     FAULT_KINDS = ('short_read', 'early_eof_before_decision_point',
                    'empty_chunk', 'allowed_formats_restricted',
-                   'expected_format_given')
+                   'expected_format_given', 'returned_formats_list_edited',
+                   'allowed_collection_edited_after_construction')
     PROBES = ('two_or_more_yes', 'exactly_one_yes', 'all_no', 'has_maybe',
               'decided_before_eof', 'raw_result', 'multiple_formats_error',
               'no_allowed_match_error', 'fat_lookalike',
@@ -105,6 +106,15 @@ class C03(Check):
             case['styles'] = [arng.choice(imgsim.NAME_STYLES),
                               arng.choice(imgsim.COLL_STYLES),
                               arng.choice(imgsim.NAME_STYLES)]
+        if via != 'detect':
+            if arng.random() < 0.15:
+                # the caller edits the list `formats` returns, then asks again
+                case['spoil'] = arng.choice(imgsim.SPOILS)
+            if case['allowed'] and arng.random() < 0.08 and \
+                    (case.get('styles') or [0, None])[1] in (None, 'set'):
+                # ... or goes on editing the collection it passed
+                case['mutate_allowed'] = arng.choice(('clear', 'add_all'))
+            case['kind'] = core.weighted(arng, imgsim.CHUNK_KINDS)
         if via == 'wfile':
             case['ask'] = core.weighted(xrng, imgsim.ASK_MODES)
         if via == 'witer' and xrng.random() < 0.3:
@@ -237,13 +247,18 @@ class C03(Check):
                 pers = 'file' if case['via'] == 'wfile' else 'iter'
                 plan = [x for x in sizes if x > 0] if pers == 'file' \
                     else sizes
-                src = SimSource(data, plan)
+                src = SimSource(data, plan, kind=case.get('kind'))
                 try:
                     sty = case.get('styles') or [None, None, None]
+                    allowed_obj = imgsim.coll_arg(allowed, sty[1], sty[2])
                     w = m.InspectWrapper(
-                        src, allowed_formats=imgsim.coll_arg(
-                            allowed, sty[1], sty[2]),
+                        src, allowed_formats=allowed_obj,
                         expected_format=imgsim.name_arg(expected, sty[0]))
+                    if case.get('mutate_allowed') and \
+                            imgsim.mutate_collection(
+                                allowed_obj, case['mutate_allowed'],
+                                list(F.FORMATS)):
+                        bump(fa, 'allowed_collection_edited_after_construction')
                     imgsim.order_inspectors(w, case.get('order') or
                                             list(F.FORMATS))
                     idx = 0
@@ -277,14 +292,20 @@ class C03(Check):
                             aborted = True
                             break
                         samples.append(imgsim.w_format(w))
+                        if case.get('spoil') and \
+                                imgsim.spoil_formats(w, case['spoil']):
+                            bump(fa, 'returned_formats_list_edited')
                         idx += 1
                         if done:
                             break
                     w.close()
                     final = imgsim.w_format(w)
                     finals = imgsim.w_formats(w)
+                    if case.get('spoil') and \
+                            imgsim.spoil_formats(w, case['spoil']):
+                        bump(fa, 'returned_formats_list_edited')
                     again = imgsim.w_format(w)
-                    if again != final:
+                    if again != final or imgsim.w_formats(w) != finals:
                         viol('format_not_stable_after_close', first=final,
                              second=again)
                 except core.StepCapExceeded:
